@@ -29,6 +29,7 @@ LEVEL_TEXT = (
     "raises, simulator falls back with a warning), measured / zero coefficients, conversion histories in one "
     "process, and every sequence of <= 3 (thorough 4) simulator operations and model edits with the "
     "integrator's Jacobian compared against finite differences of the model's current right-hand side. "
+    ' Also: user rate laws that call helpers with keyword arguments.'
 )
 LEVEL_NOTE = "trusted: numeric Model RHS (C01), scipy integrators, Richardson-extrapolated central differences (error ~1e-9 relative on these rational functions)"
 RULE = (
